@@ -259,6 +259,37 @@ func nodeRender(n *vnode) string {
 		") sigs=(" + strings.Join(sigs, " ; ") + ")}"
 }
 
+// roundViews: what the node holds per round (dump and signature store), for the non-interference monitor
+func roundViews(n *vnode) map[string]string {
+	out := map[string]string{}
+	if bz, _ := n.ldb.Get(topic + "_fsm_state"); len(bz) > 0 {
+		m := map[string][]byte{}
+		json.Unmarshal(bz, &m)
+		for r, d := range m {
+			out[r] = rDumpNBytes(d)
+		}
+	}
+	for r := range out {
+		st, err := n.sigSvc.GetSignatures(&dto.DkgIdDTO{DkgID: r})
+		if err != nil {
+			continue
+		}
+		var sigs []string
+		for batch, mm := range st {
+			for mid, entries := range mm {
+				parts := make([]string, len(entries))
+				for i, e := range entries {
+					parts[i] = rRSigGo(e)
+				}
+				sigs = append(sigs, fmt.Sprintf("%x/%x=[%s]", batch, mid, strings.Join(parts, ",")))
+			}
+		}
+		sort.Strings(sigs)
+		out[r] += " sigs=(" + strings.Join(sigs, ";") + ")"
+	}
+	return out
+}
+
 type nodeRun struct {
 	st   *nodeStats
 	ops  *bufio.Writer
@@ -349,6 +380,7 @@ func (r *nodeRun) feedOp(c *cluster, n *vnode, m storage.Message, kind, opName s
 		snap = rawSnap(n)
 	}
 	before := nodeRender(n)
+	viewsBefore := roundViews(n)
 	boardBefore := len(c.boardMessages())
 	// oracle: keys registered in this round that verify (Data, Signature)
 	var valid []string
@@ -426,6 +458,19 @@ func (r *nodeRun) feedOp(c *cluster, n *vnode, m storage.Message, kind, opName s
 	r.st.OutcomeHist[kind+"/"+outcome]++
 	if outcome == "panic" {
 		r.mon(fmt.Sprintf("C18 never_panics: ProcessMessage panicked on a %s message (%s from %s)", kind, m.Event, m.SenderAddr))
+	}
+	// C08: a message changes what the node holds for the round it carries, and nothing else
+	if m.Event != "reinit_dkg" {
+		va := roundViews(n)
+		for rr, v := range va {
+			if rr != m.DkgRoundID && viewsBefore[rr] != v {
+				what := "changed"
+				if _, had := viewsBefore[rr]; !had {
+					what = "created"
+				}
+				r.mon(fmt.Sprintf("C08 round_noninterference: a %s message (%s from %s) carrying round id %.8s… %s what the node holds for round %.8s…", kind, m.Event, m.SenderAddr, m.DkgRoundID, what, rr))
+			}
+		}
 	}
 	if outcome == "reject" && before != after {
 		r.mon(fmt.Sprintf("C18 reject_is_noop: a rejected %s message (%s from %s) changed durable state", kind, m.Event, m.SenderAddr))
@@ -524,6 +569,21 @@ func (r *nodeRun) mutate(c *cluster, obs *vnode, m storage.Message, otherRound s
 			x = clone()
 			x.DkgRoundID = otherRound
 			add("replay-other-round", "C10", x, true)
+		}
+	}
+	// C08: a participant announces reconstructed signatures whose entries name ANOTHER round (signed with its own key,
+	// so the message itself is genuine for the round it carries): they belong to the round of the message
+	if m.Event == string(ctypes.SignatureReconstructed) && senderIdx >= 0 && otherRound != "" && otherRound != m.DkgRoundID {
+		var sigs []fsmtypes.ReconstructedSignature
+		if json.Unmarshal(m.Data, &sigs) == nil && len(sigs) > 0 {
+			for i := range sigs {
+				sigs[i].DKGRoundID = otherRound
+				sigs[i].BatchID = "named-" + sigs[i].BatchID
+			}
+			y := clone()
+			y.Data, _ = json.Marshal(sigs)
+			y.Signature = ed25519.Sign(c.nodes[senderIdx].kp.Priv, y.Data)
+			add("recon-names-other-round", "C08", y, false)
 		}
 	}
 	// C18-type inputs: unknown event, junk round, garbage data
@@ -632,6 +692,8 @@ func (r *nodeRun) scenario(outDir string, n, t int, twoRounds bool) {
 				for i, mu := range muts {
 					if i >= half && i < perMsg {
 						apply(mu) // after it (replays of an already applied message included)
+					} else if i >= perMsg && (mu.name == "replay-other-round" || mu.name == "recon-names-other-round") && m.Event == string(ctypes.SignatureReconstructed) {
+						apply(mu) // always: the only message kind whose payload names a round itself (C08)
 					}
 				}
 				// exact duplicate of the genuine message (C13/C08: re-applying is a rejection or idempotent)
